@@ -109,16 +109,21 @@ pub open spec fn containers<'a, T: Queryable>(ns: Seq<Node<'a, T>>) -> Seq<Node<
 pub open spec fn desc_c_fn<'a, T: Queryable>() -> spec_fn(Node<'a, T>) -> Seq<Node<'a, T>> {
     |n: Node<'a, T>| containers(descendants(n))
 }
+// a segment is evaluated RFC-exactly on this input if it has no multi-selector part, or it IS a multi-selector
+// segment that receives at most one input node (process_selectors.rfc_single_input)
+pub open spec fn seg_exact<'a, T: Queryable>(s: Segment, input: Seq<Node<'a, T>>) -> bool {
+    !has_union(s) || (s is Selectors && input.len() <= 1)
+}
 pub open spec fn seg_rel<'a, T: Queryable>(s: Segment, st: State<'a, T>, r: State<'a, T>) -> bool {
     r.root == st.root && (is_nodes(st.data) ==> is_nodes(r.data))
     // KNOWN FINDING (process_selectors.order): a multi-selector segment concatenates per selector instead of
-    // per input node, so the sequence claim is restricted to union-free segments
-    && (is_nodes(st.data) && !has_union(s) ==> nodes(r.data) == rfc_seg(s, nodes(st.data), st.root))
+    // per input node, so the sequence claim excludes multi-selector segments that receive several input nodes
+    && (is_nodes(st.data) && seg_exact(s, nodes(st.data)) ==> nodes(r.data) == rfc_seg(s, nodes(st.data), st.root))
     && (s matches Segment::Selector(sel) && (sel is Name || sel is Index) && one_or_none(st.data) ==> one_or_none(r.data))
 }
 pub open spec fn segs_rel<'a, T: Queryable>(segs: Seq<Segment>, st: State<'a, T>, r: State<'a, T>) -> bool {
     r.root == st.root && (is_nodes(st.data) ==> is_nodes(r.data))
-    && (is_nodes(st.data) && union_free(segs) ==> nodes(r.data) == rfc_segs(segs, nodes(st.data), st.root))
+    && (is_nodes(st.data) && segs_exact(segs, nodes(st.data).len() <= 1) ==> nodes(r.data) == rfc_segs(segs, nodes(st.data), st.root))
     && (singular_segs(segs) && one_or_none(st.data) ==> one_or_none(r.data))
 }
 // ---- entry points ----
@@ -139,4 +144,90 @@ pub proof fn lemma_fold_segs<'a, T: Queryable + 'a, F: Fn(State<'a, T>, &Segment
         assert(forall|i: int| 0 <= i < xs.drop_last().len() ==> xs.drop_last()[i] == xs[i]);
         assert(xs.last() == xs[xs.len() - 1]);
     }
+}
+
+// ---- multi-selector segments ----
+// What process_selectors computes: every selector is applied to the WHOLE input list, the results are concatenated in
+// selector order.  RFC 9535 2.5.1.2 wants: for each input node, the selectors in written order (mapped(input, sels_fn)).
+// The two agree when the segment receives at most one input node (lemma_by_selector_single); in general only the
+// multiset of the result is RFC-exact: that is the KNOWN FINDING KF-C02-union-order.
+#[verifier::opaque]
+pub open spec fn sels_by_selector<'a, T: Queryable>(ss: Seq<Selector>, input: Seq<Node<'a, T>>, root: &'a T) -> Seq<Node<'a, T>>
+    decreases ss.len()
+{
+    if ss.len() == 0 { Seq::empty() } else { sels_by_selector(ss.drop_last(), input, root) + mapped(input, sel_fn(ss.last(), root)) }
+}
+pub proof fn lemma_by_selector_single<'a, T: Queryable>(ss: Seq<Selector>, input: Seq<Node<'a, T>>, root: &'a T)
+    requires input.len() <= 1,
+    ensures sels_by_selector(ss, input, root) == mapped(input, sels_fn(ss, root)),
+    decreases ss.len(),
+{
+    reveal_with_fuel(sels_by_selector, 2);
+    if input.len() == 0 {
+        assert(input =~= Seq::<Node<'a, T>>::empty());
+        lemma_mapped_none(sels_fn(ss, root));
+        if ss.len() != 0 {
+            lemma_by_selector_single(ss.drop_last(), input, root);
+            lemma_mapped_none(sels_fn(ss.drop_last(), root));
+            lemma_mapped_none(sel_fn(ss.last(), root));
+        }
+    } else {
+        assert(input =~= seq![input[0]]);
+        lemma_mapped_one(input[0], sels_fn(ss, root));
+        if ss.len() != 0 {
+            lemma_by_selector_single(ss.drop_last(), input, root);
+            lemma_mapped_one(input[0], sels_fn(ss.drop_last(), root));
+            lemma_mapped_one(input[0], sel_fn(ss.last(), root));
+        }
+    }
+}
+pub open spec fn selectors_rel<'a, T: Queryable>(ss: Seq<Selector>, st: State<'a, T>, r: State<'a, T>) -> bool {
+    r.root == st.root && (is_nodes(st.data) ==> is_nodes(r.data) && nodes(r.data) == sels_by_selector(ss, nodes(st.data), st.root))
+}
+// induction over the accumulator sequence of the map-reduce
+pub proof fn lemma_map_reduce_selectors<'a, T: Queryable>(ss: Seq<Selector>, st: State<'a, T>, ys: Seq<State<'a, T>>, acc: Seq<State<'a, T>>, k: int)
+    requires
+        ys.len() == ss.len(), acc.len() == ss.len(), 0 <= k < ss.len(),
+        forall|i: int| 0 <= i < ss.len() ==> nodes_rel(st, #[trigger] ys[i], mapped(nodes(st.data), sel_fn(ss[i], st.root))),
+        acc[0] == ys[0],
+        forall|i: int| 1 <= i < ss.len() ==> (#[trigger] acc[i]).root == acc[i - 1].root
+            && (is_nodes(acc[i - 1].data) && is_nodes(ys[i].data) ==> is_nodes(acc[i].data) && nodes(acc[i].data) == nodes(acc[i - 1].data) + nodes(ys[i].data)),
+    ensures selectors_rel(ss.subrange(0, k + 1), st, acc[k]),
+    decreases k,
+{
+    reveal_with_fuel(sels_by_selector, 2);
+    let pre = ss.subrange(0, k + 1);
+    assert(pre.last() == ss[k]);
+    if k == 0 {
+        assert(pre.drop_last() =~= Seq::<Selector>::empty());
+        assert(sels_by_selector(pre.drop_last(), nodes(st.data), st.root) =~= Seq::<Node<'a, T>>::empty());
+        assert(sels_by_selector(pre, nodes(st.data), st.root) =~= mapped(nodes(st.data), sel_fn(ss[0], st.root)));
+    } else {
+        lemma_map_reduce_selectors(ss, st, ys, acc, k - 1);
+        assert(pre.drop_last() =~= ss.subrange(0, k));
+    }
+}
+
+pub open spec fn reduce_rel<'a, T: Queryable>(a: State<'a, T>, b: State<'a, T>, o: State<'a, T>) -> bool {
+    o.root == a.root && (is_nodes(a.data) && is_nodes(b.data) ==> is_nodes(o.data) && nodes(o.data) == nodes(a.data) + nodes(b.data))
+}
+pub proof fn lemma_selectors_from_map_reduce<'a, T: Queryable + 'a, F: Fn(&Selector) -> State<'a, T>, G: Fn(State<'a, T>, State<'a, T>) -> State<'a, T>>(
+    f: F, g: G, ss: Seq<Selector>, st: State<'a, T>, r: State<'a, T>)
+    requires
+        ss.len() > 0,
+        forall|s: &Selector, o: State<'a, T>| #[trigger] f.ensures((s,), o) ==> nodes_rel(st, o, mapped(nodes(st.data), sel_fn(*s, st.root))),
+        forall|a: State<'a, T>, b: State<'a, T>, o: State<'a, T>| #[trigger] g.ensures((a, b), o) ==> reduce_rel(a, b, o),
+        exists|ys: Seq<State<'a, T>>, acc: Seq<State<'a, T>>| map_reduce_ok(f, g, ss, ys, acc, r),
+    ensures selectors_rel(ss, st, r),
+{
+    let (ys, acc) = choose|ys: Seq<State<'a, T>>, acc: Seq<State<'a, T>>| map_reduce_ok(f, g, ss, ys, acc, r);
+    assert forall|i: int| 0 <= i < ss.len() implies nodes_rel(st, #[trigger] ys[i], mapped(nodes(st.data), sel_fn(ss[i], st.root))) by {
+        assert(f.ensures((&ss[i],), ys[i]));
+    }
+    assert forall|i: int| 1 <= i < ss.len() implies (#[trigger] acc[i]).root == acc[i - 1].root
+        && (is_nodes(acc[i - 1].data) && is_nodes(ys[i].data) ==> is_nodes(acc[i].data) && nodes(acc[i].data) == nodes(acc[i - 1].data) + nodes(ys[i].data)) by {
+        assert(reduce_step(g, acc, ys, i));
+    }
+    lemma_map_reduce_selectors(ss, st, ys, acc, ss.len() - 1);
+    assert(ss.subrange(0, ss.len() as int) =~= ss);
 }
